@@ -727,13 +727,27 @@ PROPS = {
                        "non-existence (with the closest encloser that NSEC gives), a name error (two proofs: the name and the wildcard at its closest "
                        "encloser) and wildcard NODATA only when groups of the answer prove them in the sense of RFC 4035 5.4 (predicates proves_nodata / "
                        "proves_nx: right owner or covering interval, type and CNAME absent, the right side of a zone cut, no empty non-terminal, no "
-                       "delegation or DNAME above the name); which NSEC of a group counts is get_checked_nsec (modelled).",
+                       "delegation or DNAME above the name). Which NSEC of a group counts is now the real get_checked_nsec (real text): it hands out the group's NSEC "
+                       "exactly when the group is a secure NSEC RRset of one record validated by the expected signer and not expanded from a wildcard "
+                       "(the spec function `checked` the four proof finders are stated over), and its panic!(\"NSEC expected\") is unreachable on groups whose "
+                       "records carry the data of the group's type. get_checked_nsec3 and supported_nsec3_hash (real text): nothing in an NSEC3 group is "
+                       "acted upon -- neither handed out as proof material nor turned into an Insecure / Bogus verdict for too many iterations (RFC 9276) -- "
+                       "unless the group is secure, validated by the expected signer, holds one NSEC3 record and uses SHA-1; a record is handed out only "
+                       "within both iteration limits, unchanged, and only if the hash spelled by its owner label has the length of the next-owner hash; "
+                       "above the bogus limit the verdict is Bogus, between the limits Insecure, never Secure. nsec_closest_encloser (real text, both suffix "
+                       "loops): the name returned is the longest suffix of the target among the suffixes of the NSEC's owner and next name "
+                       "(lemma_closest_encloser_is_longest gives the declarative reading; a tie is the same name, so either comparison operator verifies).",
         "not_covered": "Soundness of 'secure' beyond the 360 scenarios of the native search (signature chains to a trust anchor, NSEC/NSEC3 proofs), insecure-delegation handling, "
-                       "every other panic site of the validator (e.g. get_checked_nsec's panic!(\"NSEC expected\"), "
-                       "nsec3_hash(..).unwrap()), loops: async code over caches and crypto, out of reach.",
+                       "the NSEC3 proof finders (nsec3_for_nodata, nsec3_for_not_exists, nsec3_for_nxdomain: async functions over the hash cache, outside Verus; "
+                       "their building blocks get_checked_nsec3, nsec3_in_range, nsec3_label_to_hash are under contract), every other panic site of the "
+                       "validator (e.g. nsec3_hash(..).unwrap()), loops: async code over caches and crypto, out of reach. That every group of type NSEC "
+                       "carries NSEC data (the precondition that makes get_checked_nsec's panic unreachable) is established where groups are built from "
+                       "parsed records (group.rs, AllRecordData::parse) and is an assumption here.",
         "assumptions": [
             "names and NSEC3 hashes are compared through a total order (C04: name_cmp, octet order); modelled by an integer key",
             "core::str::from_utf8 and OwnerHash::from_str (Base32hex, C18) return Ok or Err, never panic",
+            "ValidatedGroup is a model of its accessors (the real ones clone private fields); group.inv(): records of an NSEC group carry NSEC data",
+            "axiom_suffixes / axiom_common_suffix: Name::iter_suffixes lists the suffixes of a name longest first down to the root, every name ends with the root, two suffixes of one name with the same label count are equal (facts about names, not proved in this unit)",
         ],
     },
     "C09": {
